@@ -39,14 +39,16 @@ Inductive case :=
 | ParamsCase (cfgIdle peerIdle kap obsIdle obsKai : Z)
 | CloseCase (client sentFirstPacket : bool) (reqs : list (Z * Z * bool))
             (obsCause obsApi : Z * Z) (sentClose blackhole : bool) (peer : option (Z * Z)) (routing : Z)
-| ClosedConnCase (start : Z) (replies : list bool).
+| ClosedConnCase (start : Z) (replies : list bool)
+| EarlyExitCase (routing : Z) (apiClosed : bool).  (* Dial whose StartHandshake fails: what is left behind *)
 
 Inductive obs :=
 | SnapObs (hsTimeout idleStart nextIdle nextKA deadline : Z)
 | WakeObs (d : Z)
 | ParamsObs (idle kai : Z)
 | CloseObs (cause api : Z * Z) (sentClose : bool) (peer : option (Z * Z)) (routing : Z)
-| ClosedConnObs (replies : list bool).
+| ClosedConnObs (replies : list bool)
+| EarlyExitObs (routing : Z) (apiClosed : bool).
 
 Definition decision_code (d : decision) : Z :=
   match d with DContinue => 0 | DKeepAlive => 1 | DHandshakeTimeout => 2 | DIdleTimeout => 3 end.
@@ -76,6 +78,9 @@ Definition model_obs (c : case) : obs :=
                (routing_after a)
     end
   | ClosedConnCase start replies => ClosedConnObs (closed_replies start (List.length replies))
+  | EarlyExitCase _ _ =>
+    let x := ExitEarly (EOther 0) in
+    EarlyExitObs (exit_routing true false x 0 1) (match exit_fanout x with Some _ => true | None => false end)
   end.
 
 Definition pair_eqb (a b : Z * Z) : bool := (fst a =? fst b) && (snd a =? snd b).
@@ -101,6 +106,7 @@ Definition check_case (c : case) : bool :=
      | None, None => true
      | _, _ => false
      end)
+  | EarlyExitCase r c, EarlyExitObs r' c' => (r =? r') && Bool.eqb c c'
   | ClosedConnCase _ r, ClosedConnObs r' => bools_eqb r r'
   | _, _ => false
   end.
